@@ -301,6 +301,11 @@ Accept ==
   /\ Len(Case.ev) >= 1 /\ Fit1.ev = "fit"
   /\ (Kind /= "ols" /\ In.lte > 0) => Len(Case.ev) >= (IF In.ue = 0 THEN 2 ELSE 3)     \* no event may be missing
   /\ IF DevUsed THEN OkDev(Case.id, <<"enet_intercept_ymean">>) ELSE Ok(Case.id)
+  \* accounting only (counted by props/c11.py): offset cases whose slopes the float type cannot resolve
+  /\ (Premise /\ OlsIcpt /\ OffCase /\ Fit1.res = "ok" /\ Fit1.sane /\ ShapeOk(Fit1) /\ RangeOk(Fit1)
+        /\ SolveInRange(X, Y, Off, Fit1.w, Fit1.yhat, R(Fit1), 1, F32)
+        /\ ~Resolvable(X, Y, Off, Fit1.w, Fit1.yhat, R(Fit1), 1, F32))
+       => PrintT(<<"NOTE", Case.id, "unresolvable">>)
   /\ e' = e + 1 /\ UNCHANGED <<c, vars>>
 
 Stuck ==
